@@ -17,7 +17,7 @@ RULE = (
     "generated commands, responses, structures and streams: the whole input and every cut point (strict mode; warn mode on the whole input and on every second cut point, thorough: all), with a counting byte "
     "source (pull log vs running sum of emitted field bytes); 11 other source kinds (file objects through bytes_from_files, an iterator with close(), bytes, bytearray, list, tuple, iterator, "
     "generator, memoryview, array, deque) must give identical events / outcome on the whole input and (one other kind per cut point, rotating) on every prefix; hex and swtpm-log renderings with layout "
-    "noise fed through a counting character source; several files through bytes_from_files with logged read() calls; "
+    "noise fed through a counting character source, and cut behind sampled carried bytes (same events and end as the carried prefix, both modes); several files through bytes_from_files with logged read() calls; "
     "distinct = distinct (type/code, cut position) and (front-end, stream, layout) cases"
 )
 ASSUMPTIONS = ["pcapng is documented as non-lazy and excluded from the look-ahead clause", "trailing byte-less structural events after the last complete field of a prefix are free"]
@@ -159,7 +159,7 @@ def run_shard(shard, rec):
 
 def finish(m, tier):
     inc = probes.missing(m, ANCHORS)
-    for k in ("warn_mode_runs", "events_checked", "distance_1", "distance_0", "source_kind_runs", "lazy_hex_events", "lazy_swtpm_events", "lazy_files_events", "bufferedreader_runs", "multi_file_runs_with_empty_inner_file"):
+    for k in ("warn_mode_runs", "events_checked", "distance_1", "distance_0", "source_kind_runs", "lazy_hex_events", "lazy_swtpm_events", "lazy_hex_cut_runs", "lazy_swtpm_cut_runs", "lazy_files_events", "bufferedreader_runs", "multi_file_runs_with_empty_inner_file"):
         if not m["counters"].get(k):
             inc.append(f"no {k}")
     return dict(inconclusive=inc)
